@@ -289,6 +289,28 @@ def run_check(args):
     if nondet:
         print('HARNESS-ERROR nondeterministic event log for %r' % (nondet,))
         return 2
+    # ---- reach guard: a fault kind that a campaign is built around and
+    # that never fired means the harness silently lost coverage
+    fired = agg['stats'].get('faults', {})
+    for camp in camps:
+        mode = camp.get('mode', 'plain')
+        cases = agg['per_campaign'].get(camp['name'], {}).get('cases', 0)
+        if cases < 200:
+            continue
+        expect = []
+        if mode == 'crash-sweep':
+            expect = ['crash']
+        elif mode == 'oserror-sweep':
+            expect = list(camp.get('only_calls') or ['mkdir', 'gzwrite'])
+            if camp.get('torn', True) is False:
+                expect = [e for e in expect if not e.startswith('gz')]
+        elif camp['profile'] == 'C15':
+            expect = ['refuse:trunc', 'refuse:flip', 'refuse:gz-drop']
+        for e in expect:
+            if not any(k.startswith(e) and v > 0 for k, v in fired.items()):
+                print('HARNESS-ERROR fault kind %r never fired in campaign '
+                      '%s (%d cases)' % (e, camp['name'], cases))
+                exit_code = 2
     if errors:
         print('HARNESS-ERROR %d internal errors, first:\n%s' % (
             len(errors), errors[0]['error']))
